@@ -4,6 +4,7 @@ import (
 	"go.uber.org/zap/verif/props/c03"
 	"go.uber.org/zap/verif/props/c05"
 	"go.uber.org/zap/verif/props/c07"
+	"go.uber.org/zap/verif/props/c10"
 	"go.uber.org/zap/verif/props/c13"
 	"go.uber.org/zap/verif/props/c14"
 	"go.uber.org/zap/verif/props/c17"
@@ -20,5 +21,6 @@ func init() {
 	register("C05", "exploration", c05.Run, nil)
 	register("C14", "exploration", c14.Run, nil)
 	register("C07", "exploration", c07.Run, nil)
+	register("C10", "fault_enumeration", c10.Run, nil)
 	register("C02", "exploration", encjson.Run02, nil)
 }
